@@ -32,6 +32,74 @@ def _finite_wire_H(a, b, obs, cur):
     return (cur / (4 * np.pi * d) * (c1 - c2))[:, None] * ephi
 
 
+def _cel_quad(kc, p, a, b):
+    """Bulirsch's general complete elliptic integral cel(kc, p, a, b) by adaptive quadrature (Lean: CircleBS.celIntegral)"""
+    import math
+    from scipy.integrate import quad
+    f = lambda t: (a * math.cos(t) ** 2 + b * math.sin(t) ** 2) / ((math.cos(t) ** 2 + p * math.sin(t) ** 2) * math.sqrt(math.cos(t) ** 2 + kc * kc * math.sin(t) ** 2))
+    return quad(f, 0, math.pi / 2, epsabs=1e-14, epsrel=1e-13, limit=200)[0]
+
+
+def _cel_entry(kc, p, a, b):
+    """loop variables after the prologue of cel0 in its p > 0 branch (Lean: CircleBS.celEntry), order of cel_iter's arguments"""
+    import math
+    k, sp = abs(kc), math.sqrt(p)
+    return (k, k / sp + sp, 1.0, a + b / sp / sp, 2 * (b / sp + a * (k / sp)), k + 1.0, k)
+
+
+def cel_hypothesis(ctx, n):
+    """numerical check, on the real code, of the named hypothesis of Props/C01 (`CelComputesIntegral`: the cel iteration
+    started in the prologue state of cel(kc, p, a, b) returns the integral) and of the identification of the two
+    `cel_iter` calls of `current_circle_Hfield` with cel(q, 1, a_i, b_i) and the Biot-Savart loop integrals"""
+    import math
+    from scipy.integrate import quad
+    from magpylib._src.fields.special_cel import cel_iter, cel0
+    from magpylib._src.fields.field_BH_circle import current_circle_Hfield
+    rng, fails, worst = ctx.rng, [], {"cel_iter_vs_integral": 0.0, "circle_entry_states": 0.0, "circle_vs_cel_integral": 0.0, "circle_vs_loop_integral": 0.0}
+    for i in range(n):
+        nps = np.random.default_rng(rng.randrange(2**31))
+        kc = 10.0 ** nps.uniform(-3, 1.5) * (1 if i % 5 else -1)
+        p = 1.0 if i % 2 else 10.0 ** nps.uniform(-1.5, 1.5)
+        a, b = nps.normal(size=2)
+        ref, scale = _cel_quad(kc, p, a, b), _cel_quad(kc, p, abs(a), abs(b))
+        v = float(cel_iter(*[np.array([x], float) for x in _cel_entry(kc, p, a, b)])[0])
+        e = max(abs(v - ref), abs(float(cel0(kc, p, a, b)) - ref)) / scale
+        worst["cel_iter_vs_integral"] = max(worst["cel_iter_vs_integral"], e)
+        if not e < 1e-9:
+            fails.append({"key": "cel-hypothesis:iteration", "desc": f"cel_iter started in the prologue state of cel({kc:.4g}, {p:.4g}, {a:.4g}, {b:.4g}) differs from the integral (rel. {e:.2g})",
+                          "replay": {"kc": kc, "p": p, "a": float(a), "b": float(b), "cel_iter": v, "quadrature": ref}})
+        # a Circle row: the loop variables the source builds, the cel integrals they stand for, the loop integrals
+        r0, r, z, i0 = 10.0 ** nps.uniform(-1, 1), 10.0 ** nps.uniform(-1.5, 1), nps.normal() * 10.0 ** nps.uniform(-1, 0.7), nps.uniform(-3, 3)
+        if abs(r - r0) < 0.05 * r0 and abs(z) < 0.05 * r0:
+            z = 0.3 * r0
+        rr, zz = r / r0, z / r0
+        x0 = zz * zz + (rr + 1) ** 2
+        k2, q2 = 4 * rr / x0, (zz * zz + (rr - 1) ** 2) / x0
+        q = math.sqrt(q2)
+        pp = 1 + q
+        src1 = (q, pp, 1.0, k2 * k2, 2 * k2 * k2 * q / pp, pp, q)
+        src2 = (q, pp, 1.0, k2 * (k2 - (q2 + 1) / rr), 2 * k2 * q * (k2 / pp - pp / rr), pp, q)
+        a1, b1, a2, b2 = k2, -k2 * q2, k2 * (1 - 1 / rr), -k2 * q2 * (1 + 1 / rr)
+        e = max(float(np.max(np.abs(np.array(src1) - np.array(_cel_entry(q, 1.0, a1, b1))))), float(np.max(np.abs(np.array(src2) - np.array(_cel_entry(q, 1.0, a2, b2)))))) / (1 + 1 / rr)
+        worst["circle_entry_states"] = max(worst["circle_entry_states"], e)
+        if not e < 1e-12:
+            fails.append({"key": "cel-hypothesis:circle-entry", "desc": f"loop variables of current_circle_Hfield are not the prologue states of cel(q,1,a,b) (abs. {e:.2g})", "replay": {"r0": r0, "r": r, "z": z}})
+        pf = math.sqrt(k2) / math.sqrt(rr) / q2 / 20 / r0 * 1e-6 * i0
+        H = current_circle_Hfield(np.array([r0]), np.array([r]), np.array([z]), np.array([i0]))[:, 0]
+        via_cel = np.array([pf * zz / rr * _cel_quad(q, 1.0, a1, b1), 0.0, -pf * _cel_quad(q, 1.0, a2, b2)]) * 795774.7154594767
+        D = lambda t: r0 * r0 + r * r + z * z - 2 * r0 * r * math.cos(t)
+        bs = i0 / (4 * math.pi) * np.array([quad(lambda t: r0 * z * math.cos(t) / D(t) ** 1.5, 0, 2 * math.pi, epsabs=1e-14, epsrel=1e-13, limit=200)[0], 0.0,
+                                            quad(lambda t: r0 * (r0 - r * math.cos(t)) / D(t) ** 1.5, 0, 2 * math.pi, epsabs=1e-14, epsrel=1e-13, limit=200)[0]])
+        sc = float(np.max(np.abs(bs))) + 1e-300
+        e1, e2 = float(np.max(np.abs(H - via_cel))) / sc, float(np.max(np.abs(H - bs))) / sc
+        worst["circle_vs_cel_integral"] = max(worst["circle_vs_cel_integral"], e1)
+        worst["circle_vs_loop_integral"] = max(worst["circle_vs_loop_integral"], e2)
+        if not (e1 < 1e-8 and e2 < 1e-8):
+            fails.append({"key": "cel-hypothesis:circle", "desc": f"current_circle_Hfield differs from prefactor * cel integral (rel. {e1:.2g}) / from the Biot-Savart loop integral (rel. {e2:.2g})",
+                          "replay": {"r0": r0, "r": r, "z": float(z), "i0": float(i0), "H": H.tolist(), "via_cel": via_cel.tolist(), "loop_integral": bs.tolist()}})
+    return fails, {"cel_hypothesis_cases": n, "cel_hypothesis_worst": {k: float(f"{v:.3g}") for k, v in worst.items()}}
+
+
 def sweep(ctx, n):
     import magpylib as magpy
     from magpylib import mu_0
@@ -139,4 +207,6 @@ def sweep(ctx, n):
             if not e < 1e-6:
                 fails.append({"key": "first-principles:Polyline:fine", "desc": f"getH of a ring of {nseg} short segments (radius {rad:.3g}, vertices around {centre.round(3).tolist()}) differs from the Biot-Savart sum over its segments (rel. {e:.2g})",
                               "replay": {"radius": rad, "segments": nseg, "centre": centre.tolist(), "current": cur, "observer": obs[0].tolist(), "getH": H[0].tolist(), "reference": ref[0].tolist()}})
-    return fails, {"c01_observers": done, "c01_worst_rel_err": {k: float(f"{v:.3g}") for k, v in worst.items()}}
+        cf, cst = cel_hypothesis(ctx, max(8, n // 3))
+        fails += cf
+    return fails, {"c01_observers": done, "c01_worst_rel_err": {k: float(f"{v:.3g}") for k, v in worst.items()}, **cst}
